@@ -1,6 +1,7 @@
 """C19 -- fuzzy matching and spelling suggestions are exact with respect to edit distance."""
 
 import ast
+import re
 
 from ..report import rule
 from .. import pm, norm, cfg as cfgmod, guards, paths
@@ -8,14 +9,32 @@ from ..model import AnalysisError
 from .common import calls_of, find_calls, returns_of, is_abstract_body, bind_args
 
 
+def _is_add_transition(funcnode, c):
+    if norm.call_name(c) == "add_transition":
+        return True
+    if isinstance(c.func, ast.Name):
+        a = norm.aliases(funcnode).get(c.func.id)
+        return a is not None and norm.canon(a).endswith(".add_transition")
+    return False
+
+
+def _arg(funcnode, e):
+    """an argument that is a local bound once to a tuple (`here = (i, e)`) is read through"""
+    if isinstance(e, ast.Name):
+        vals = norm.assigned_names(funcnode).get(e.id, [])
+        if len(vals) == 1 and isinstance(vals[0], ast.Tuple):
+            return vals[0]
+    return e
+
+
 def automaton_ops(prog):
     """Edit operations of levenshtein_automaton as (label kind, delta position, delta errors)."""
     f = prog.func("automata.lev.levenshtein_automaton")
     ops = set()
     for c in norm.calls_in(f.node):
-        if norm.call_name(c) != "add_transition" or len(c.args) != 3:
+        if not _is_add_transition(f.node, c) or len(c.args) != 3:
             continue
-        src, lab, dst = c.args
+        src, lab, dst = _arg(f.node, c.args[0]), c.args[1], _arg(f.node, c.args[2])
         if not (isinstance(src, ast.Tuple) and isinstance(dst, ast.Tuple) and len(src.elts) == 2 and len(dst.elts) == 2):
             continue
         s0, s1 = norm.canon(src.elts[0]), norm.canon(src.elts[1])
@@ -79,13 +98,20 @@ def c19_r1(ctx):
     pl = [n for n in ast.walk(af.node) if isinstance(n, ast.For) and norm.deep_canon(n.iter, af.node) in ("xrange(prefix)", "range(prefix)")]
     okp = bool(pl) and isinstance(pl[0].target, ast.Name) and any(
         norm.canon(c.args[0]) == "(%s, 0)" % pl[0].target.id and norm.canon(c.args[2]) == "((1 + %s), 0)" % pl[0].target.id
-        for c in norm.calls_in(pl[0]) if norm.call_name(c) == "add_transition" and len(c.args) == 3)
+        for c in norm.calls_in(pl[0]) if _is_add_transition(af.node, c) and len(c.args) == 3)
     rest = [n for n in ast.walk(af.node) if isinstance(n, ast.For) and norm.deep_canon(n.iter, af.node) in ("xrange(prefix, len(term))", "range(prefix, len(term))")]
     ctx.ob(af, okp and bool(rest), "the first `prefix` characters must match exactly; edits start after them")
     # the exact-prefix loop reads term[i]: the prefix length must have been clamped to len(term) (the brute-force path slices
     # text[:prefix], which cannot overrun)
+    def _lenexp(e):
+        # len(term), possibly held in a local bound once (termlen = len(term))
+        t = norm.canon(e)
+        for nm_, vals_ in norm.assigned_names(af.node).items():
+            if len(vals_) == 1 and vals_[0] is not None and norm.canon(vals_[0]) == "len(term)":
+                t = re.sub(r"(?<![\w.])%s(?![\w])" % re.escape(nm_), "len(term)", t)
+        return t
     clamp = [st for st in ast.walk(af.node) if isinstance(st, ast.Assign) and norm.canon(st.targets[0]) == "prefix"
-             and norm.canon(st.value) in ("min(prefix, len(term))", "min(len(term), prefix)")]
+             and _lenexp(st.value) in ("min(prefix, len(term))", "min(len(term), prefix)")]
     loop_clamped = any(isinstance(n, ast.For) and norm.canon(n.iter) in ("range(min(prefix, len(term)))", "xrange(min(prefix, len(term)))",
                                                                           "range(min(len(term), prefix))", "xrange(min(len(term), prefix))")
                        for n in ast.walk(af.node))
